@@ -269,11 +269,20 @@ def run_case(case):
                         # with rows of differing width, tabulator's "auto" preset may take a later row as the header row
                         # (a column whose header cell is empty is left out)
                         for k_ in range(min(10, len(ar))):
-                            if onames == [h.strip() for h in ar[k_]] or onames == [h.strip() for h in ar[k_] if h.strip()]:
+                            cand_ = [h.strip() for h in ar[k_]]
+                            cand2_ = [h for h in cand_ if h]
+                            def dedup_of(names_, c_):
+                                # names_ is c_ with its repeated cells (and only those) given a generated suffix
+                                low_ = [h_ if kw.get('deduplicate_headers_case_sensitive', True) else h_.lower() for h_ in c_]
+                                return len(names_) == len(c_) and all(
+                                    o_ == h_ or (low_.count(l_) > 1 and h_ != '' and o_.startswith(h_))
+                                    for o_, h_, l_ in zip(names_, c_, low_))
+                            if onames == cand_ or onames == cand2_ or (
+                                    kw.get('deduplicate_headers') and (dedup_of(onames, cand_) or dedup_of(onames, cand2_))):
                                 ah, ar = ar[k_], ar[k_ + 1:]
                                 break
                     if kw.get('deduplicate_headers'):
-                        same_header = len(onames) == len(ah)
+                        same_header = len(onames) in (len(ah), len([h for h in ah if h.strip()]))
                     else:
                         same_header = onames == [h.strip() for h in ah] or onames == [h.strip() for h in ah if h.strip()]
                     n_alt = len(ar) if limit is None else min(limit, len(ar))
